@@ -133,8 +133,21 @@ func ReachingStore(load *ssa.UnOp) *ssa.Store {
 		return nil
 	}
 	// no other store may lie on a path cand.Block -> b
-	fromD := ReachFrom(cand.Block().Succs, nil)
-	toB := reachTo(b)
+	// paths that re-enter cand's block re-execute the store: cut them
+	cutIn := EdgeSet{}
+	for _, pb := range cand.Block().Preds {
+		for i, sx := range pb.Succs {
+			if sx == cand.Block() {
+				cutIn[Edge{pb, i}] = true
+			}
+		}
+	}
+	fromD := ReachFrom(cand.Block().Succs, cutIn)
+	delete(fromD, cand.Block())
+	if b == cand.Block() {
+		return nil
+	}
+	toB := reachToAvoid(b, cand.Block())
 	for _, s := range stores {
 		if s == cand {
 			continue
@@ -204,6 +217,21 @@ func fvWritten(fv *ssa.FreeVar) bool {
 		}
 	}
 	return false
+}
+
+func reachToAvoid(b, avoid *ssa.BasicBlock) map[*ssa.BasicBlock]bool {
+	seen := map[*ssa.BasicBlock]bool{}
+	var dfs func(x *ssa.BasicBlock)
+	dfs = func(x *ssa.BasicBlock) {
+		for _, p := range x.Preds {
+			if p != avoid && !seen[p] {
+				seen[p] = true
+				dfs(p)
+			}
+		}
+	}
+	dfs(b)
+	return seen
 }
 
 func reachTo(b *ssa.BasicBlock) map[*ssa.BasicBlock]bool {
@@ -502,6 +530,13 @@ func (c *canon) val(v ssa.Value, d int) string {
 	case *ssa.Call:
 		return c.call(x, d)
 	case *ssa.BinOp:
+		if x.Op == token.ADD {
+			if ph, ok := x.X.(*ssa.Phi); ok && isLoopCounter(ph) == -1 {
+				if n, ok := ConstInt(x.Y); ok && n == 1 {
+					return "#i" // index of a range loop
+				}
+			}
+		}
 		l, r := c.val(x.X, d-1), c.val(x.Y, d-1)
 		op := x.Op
 		switch op {
@@ -519,6 +554,14 @@ func (c *canon) val(v ssa.Value, d int) string {
 		}
 		return "(" + l + " " + op.String() + " " + r + ")"
 	case *ssa.Phi:
+		if k := isLoopCounter(x); k == 0 {
+			return "#i" // counter of a `for i := 0; ...; i++` loop
+		} else if k == -1 {
+			return "(#i - 1)"
+		}
+		if of := isDownCounter(x); of != nil {
+			return "#down(" + c.val(of, d-1) + ")"
+		}
 		if c.phis[x] {
 			return "loop"
 		}
@@ -545,9 +588,66 @@ func (c *canon) val(v ssa.Value, d int) string {
 	return "<" + namedOf(v.Type()) + ">"
 }
 
+// isLoopCounter: phi{init, phi+1} with constant init 0 (classic loop) or -1
+// (range loop, where phi+1 is the index). Returns the init or 99.
+func isLoopCounter(ph *ssa.Phi) int {
+	init := int64(99)
+	nInit := 0
+	for _, e := range ph.Edges {
+		if n, ok := ConstInt(e); ok {
+			if _, isC := e.(*ssa.Const); isC {
+				init = n
+				nInit++
+				continue
+			}
+		}
+		bo, ok := e.(*ssa.BinOp)
+		if !ok || bo.Op != token.ADD || bo.X != ph {
+			return 99
+		}
+		if n, ok := ConstInt(bo.Y); !ok || n != 1 {
+			return 99
+		}
+	}
+	if nInit != 1 || (init != 0 && init != -1) || len(ph.Edges) < 2 {
+		return 99
+	}
+	return int(init)
+}
+
+// isDownCounter: phi{len(X)-1, phi-1}: index of a loop that visits X from
+// the last element to the first. Returns X.
+func isDownCounter(ph *ssa.Phi) ssa.Value {
+	var of ssa.Value
+	for _, e := range ph.Edges {
+		bo, ok := e.(*ssa.BinOp)
+		if !ok || bo.Op != token.SUB {
+			return nil
+		}
+		if n, ok := ConstInt(bo.Y); !ok || n != 1 {
+			return nil
+		}
+		if bo.X == ph {
+			continue
+		}
+		call, ok := bo.X.(*ssa.Call)
+		if !ok {
+			return nil
+		}
+		if b, ok := call.Call.Value.(*ssa.Builtin); !ok || b.Name() != "len" || of != nil {
+			return nil
+		}
+		of = call.Call.Args[0]
+	}
+	return of
+}
+
 func (c *canon) index(idx ssa.Value, d int) string {
 	if n, ok := ConstInt(idx); ok {
 		return fmt.Sprintf("[%d]", n)
+	}
+	if ph, ok := Strip(idx).(*ssa.Phi); ok && isDownCounter(ph) != nil {
+		return "[#down]"
 	}
 	return "[]"
 }
@@ -659,6 +759,9 @@ func (c *canon) call(call *ssa.Call, d int) string {
 		if f := GetterField(fn); f != nil && len(cc.Args) == 1 {
 			return c.val(cc.Args[0], d) + "." + f.Name()
 		}
+		if fn.Pkg != nil && fn.Pkg.Pkg.Path() == "math/big" && namedOf(call.Type()) == "Int" && len(cc.Args) > 0 && bigMutator(fn.Name()) {
+			return c.val(cc.Args[0], d) // x.SetBytes(b) returns x
+		}
 		name = calleeShort(fn)
 	} else {
 		name = "dyn:" + c.val(cc.Value, d-1)
@@ -751,6 +854,14 @@ func (c *canon) feeds(v ssa.Value, d int) string {
 		return ""
 	}
 	return "{" + joinSet(fs) + "}"
+}
+
+func bigMutator(n string) bool {
+	switch n {
+	case "Add", "Sub", "Mul", "Div", "Quo", "Rem", "Mod", "Neg", "Set", "SetBytes", "SetInt64", "SetUint64", "Exp", "Lsh", "Rsh", "Abs":
+		return true
+	}
+	return false
 }
 
 func calleeShort(fn *ssa.Function) string {
